@@ -3,3 +3,6 @@ import Spec.AllotSpec
 import Spec.Draw
 import Spec.Distribute
 import Spec.Statement
+import Spec.Ledger
+import Spec.Complete
+import Spec.ProgramSpec
